@@ -46,7 +46,7 @@ def post(cov, cases, recs):
 
 
 def run(tier, seed):
-    return tracecheck.run(PID, tier, seed, PROFILE, oracle, n_quick=400, n_thorough=6000, variants=variants, post=post, mask=1 | 4 | 8)
+    return tracecheck.run(PID, tier, seed, PROFILE, oracle, n_quick=240, n_thorough=6000, variants=variants, post=post, mask=1 | 4 | 8)
 
 
 def replay(payload):
